@@ -229,11 +229,24 @@ class Real:
         return log, errs
 
     # -------------------------------------------------- ORACLE: what the compiler addresses
+    def _user_objects(self, schema):
+        # one scan of the schema per schema object (the scan dominates the harness's own cost)
+        c = getattr(self, '_uo_cache', None)
+        if c is None or c[0] is not schema:
+            objs, ptrs = [], []
+            for o in schema.get_objects(exclude_stdlib=True):
+                if isinstance(o, self.s_objtypes.ObjectType):
+                    objs.append(o)
+                elif isinstance(o, self.s_pointers.Pointer):
+                    ptrs.append(o)
+            c = self._uo_cache = (schema, objs, ptrs)
+        return c
+
     def user_objtypes(self, schema):
-        return [o for o in schema.get_objects(type=self.s_objtypes.ObjectType, exclude_stdlib=True)]
+        return list(self._user_objects(schema)[1])
 
     def user_pointers(self, schema):
-        return [p for p in schema.get_objects(type=self.s_pointers.Pointer, exclude_stdlib=True)]
+        return list(self._user_objects(schema)[2])
 
     def expected(self, schema):
         """{table: set(columns)} addressed for the schema, by the real types.py functions;
@@ -268,6 +281,126 @@ class Real:
                 else:
                     tables[info.table_name].add(info.column_name)
         return tables, dangling
+
+    # -------------------------------------------------- the consumer side: the compiler's storage lookup
+    def stored_pointers(self, schema):
+        pgtypes = self.pgtypes
+        for p in self.user_pointers(schema):
+            if p.is_non_concrete(schema) or p.is_pure_computable(schema) or p.get_is_derived(schema):
+                continue
+            if not pgtypes.has_table(p.get_source(schema), schema):
+                continue
+            if p.get_shortname(schema).name == '__type__':
+                continue
+            yield p
+
+    def compiler_lookup(self, schema, cat):
+        """For every stored user pointer: what the SQL compiler's lookup answers
+        (`irtyputils.ptrref_from_ptrcls` + `pgtypes.get_ptrref_storage_info`, resolve_type and
+        link_bias variants) against (a) `get_pointer_storage_info` on the schema object and
+        (b) the catalog (the addressed table / column exists).  Nothing is cleared between
+        calls: the process-wide memo of `_get_ptrref_storage_info` sees the whole history."""
+        from edb.ir import typeutils as irtyputils
+        pgtypes = self.pgtypes
+        bad = []
+        n = 0
+        for p in self.stored_pointers(schema):
+            name = str(p.get_name(schema))
+            if (p.is_link_property(schema) and not p.is_special_pointer(schema)
+                    and p.get_shortname(schema).name in ('source', 'target')):
+                name = 'USER-LPROP-NAMED-ENDPOINT ' + name      # finding 4: special-cased by name
+            try:
+                ptrref = irtyputils.ptrref_from_ptrcls(schema=schema, ptrcls=p, cache=None, typeref_cache=None)
+            except Exception as e:
+                bad.append(f'{name}: ptrref_from_ptrcls raised {type(e).__name__}: {e}'[:200])
+                continue
+            for lb in (False, True):
+                if lb and p.is_link_property(schema):
+                    continue
+                for rt in (False, True):
+                    n += 1
+                    try:
+                        i1 = pgtypes.get_ptrref_storage_info(ptrref, resolve_type=rt, link_bias=lb, allow_missing=True)
+                        i2 = pgtypes.get_pointer_storage_info(p, schema=schema, resolve_type=rt, link_bias=lb)
+                    except Exception as e:
+                        bad.append(f'{name} link_bias={lb}: lookup raised {type(e).__name__}: {e}'[:200])
+                        continue
+                    t1 = None if i1 is None else (i1.table_name, i1.table_type, i1.column_name,
+                                                  tuple(i1.column_type) if rt and i1.column_type else None)
+                    t2 = None if i2 is None else (i2.table_name, i2.table_type, i2.column_name,
+                                                  tuple(i2.column_type) if rt and i2.column_type else None)
+                    endpoint = p.is_link_property(schema) and p.is_special_pointer(schema)
+                    if t1 != t2 and not endpoint:
+                        # (`@source` / `@target` are answered differently by the two functions on a single
+                        # link with properties — inline column vs link table; both exist — so for them only
+                        # existence is required)
+                        bad.append(f'{name} link_bias={lb} resolve_type={rt}: compiler lookup {t1} but the schema '
+                                   f'object is stored at {t2}')
+                    if i1 is not None and i1.table_name is not None and not rt:
+                        if i1.table_name not in cat:
+                            bad.append(f'{name} link_bias={lb}: compiler addresses table {i1.table_name[1]} '
+                                       'which does not exist')
+                        elif i1.column_name not in cat[i1.table_name]:
+                            bad.append(f'{name} link_bias={lb}: compiler addresses column '
+                                       f'{i1.table_name[1]}.{i1.column_name} which does not exist')
+        return n, bad
+
+    SQL_TABLE = re.compile(r'edgedbpub\."([0-9a-f]{8}-[0-9a-f-]{27})"')
+    SQL_COL = re.compile(r'(?<!edgedbpub)\."([0-9a-f]{8}-[0-9a-f-]{27})"')
+
+    def queries_for(self, schema, ptr_ids, limit):
+        """EdgeQL queries reading the given pointers: `select T { p }`, `select T.p`, `select T.l@q`"""
+        out = []
+        for p in self.user_pointers(schema):
+            if str(p.id) not in ptr_ids or p.is_non_concrete(schema) or p.get_is_derived(schema):
+                continue
+            src = p.get_source(schema)
+            pn = p.get_shortname(schema).name
+            if pn in ('__type__', 'source', 'target'):
+                continue
+            if isinstance(src, self.s_pointers.Pointer):
+                t = src.get_source(schema)
+                if t is None:
+                    continue
+                tag = 'lprop-of-computed-link' if src.is_pure_computable(schema) else ''
+                out.append((f'select {t.get_name(schema)}.{bq(src.get_shortname(schema).name)}@{bq(pn)}', tag))
+            elif isinstance(src, self.s_objtypes.ObjectType) and self.pgtypes.has_table(src, schema):
+                tn = str(src.get_name(schema))
+                out.append((f'select {tn} {{ {bq(pn)} }}', ''))
+                out.append((f'select {tn}.{bq(pn)}', ''))
+                if isinstance(p, self.s_links.Link):
+                    tag = 'lprop-of-computed-link' if p.is_pure_computable(schema) else ''
+                    for lp in p.get_pointers(schema).objects(schema):
+                        if not lp.is_special_pointer(schema):
+                            out.append((f'select {tn}.{bq(pn)}@{bq(lp.get_shortname(schema).name)}', tag))
+            if len(out) >= limit:
+                break
+        return out[:limit]
+
+    def compile_queries(self, schema, cat, queries):
+        """real EdgeQL -> IR -> SQL compilation; every table / id-named column the SQL text references
+        must exist in the catalog"""
+        from edb.pgsql import compiler as pgc, codegen as pgcodegen
+        allcols = set()
+        for cols in cat.values():
+            allcols |= cols
+        bad, errors, n = [], [], 0
+        for q, tag in queries:
+            try:
+                ir = self.env.compile_to_ir(schema, q)
+                res = pgc.compile_ir_to_sql_tree(ir, output_format=pgc.OutputFormat.NATIVE)
+                sql = pgcodegen.generate_source(res.ast)
+            except Exception as e:
+                errors.append(f'{q}: {type(e).__name__}: {e}'[:200])
+                continue
+            n += 1
+            for t in set(self.SQL_TABLE.findall(sql)):
+                if ('edgedbpub', t) not in cat:
+                    bad.append((tag, f'{q}: the SQL reads table edgedbpub."{t}" which does not exist'))
+            for c in set(self.SQL_COL.findall(sql)):
+                if c not in allcols:
+                    bad.append((tag, f'{q}: the SQL reads column "{c}" which exists in no table'))
+        return n, bad, errors
 
     # -------------------------------------------------- abstraction of the real schema
     def alpha(self, schema):
@@ -1102,24 +1235,22 @@ FIXED = [
         "alter property tags { set single using (select .tags limit 1); rename to tag; }; create property extra -> str; }",
         "alter type B { alter link b { set multi; alter property v { rename to vv; }; }; drop link a; "
         "create multi link c -> A { create property cw -> str; }; extending A; }"]),
-    # --- the known violations -------------------------------------------------
-    ('FINDING-rename-to-dunder', BASE_AB + ['alter type A alter property name rename to __bar']),
-    ('FINDING-rename-from-dunder', BASE_AB + ['alter type A create property __foo -> str',
-                                              'alter type A alter property __foo rename to foo']),
-    ('FINDING-prop-single-to-computed-multi', BASE_AB + ["alter type A alter property name using ({'x', 'y'})"]),
-    ('FINDING-rename-dunder-to-dunder', BASE_AB + ['alter type A create property __foo -> str',
-                                                   'create type C extending A',
-                                                   'alter type A alter property __foo rename to __bar']),
-    ('FINDING-link-with-lprops-stored-again', BASE_AB + [
-        'alter type B alter link as_ using (select A)', 'alter type B alter link as_ reset expression']),
-    ('FINDING-cardinality-changed-twice-in-one-statement', BASE_AB + [
-        ('compound_link+twice', 'alter type B { alter link as_ { set single using (select .as_ limit 1); set multi; }; }')]),
-    ('FINDING-abstract-link-property-named-source', [
-        'create abstract link fal { create property `source` -> str }',
-        'alter abstract link fal drop property `source`']),
-    ('FINDING-abstract-link-property-named-target', [
-        'create abstract link fal { create property `target` -> str }']),
 ]
+
+
+def corpus_histories():
+    """minimal witnesses of the violations found on the real code (corpus/C05/findings.json): replayed on
+    every run so that a defect that is still there is reported under its root-cause key and one that got
+    fixed simply passes"""
+    import os
+    path = os.path.join(core.VERIF, 'corpus', 'C05', 'findings.json')
+    if not os.path.exists(path):
+        return []
+    out = []
+    for case in json.load(open(path))['cases']:
+        stmts = [tuple(x) if isinstance(x, list) else x for x in case['history']]
+        out.append(('FINDING-' + case['name'], (BASE_AB if case.get('base') == 'AB' else []) + stmts))
+    return out
 
 
 # ===================================================================== level 1
@@ -1342,6 +1473,16 @@ def run_history(R: Real, hid, name, stmts_or_gen, ncmds, lines, recs, stats, tea
                 phase = 'teardown-init'
                 continue
             template, text = 'teardown', tq.pop(0)
+        # "use P": compile queries over the pointers the statement mentions BEFORE it runs
+        mentioned = {pid for pid, d in a['ptrs'].items() if bq(d['name']) in text or f" {d['name']} " in text
+                     or f".{d['name']} " in text}
+        mentioned |= {lp for d in a['ptrs'].values() for lp, l in d['lprops'].items() if bq(l['name']) in text}
+        if mentioned and template != 'teardown':
+            nq, qbad, qerr = R.compile_queries(schema, cat, R.queries_for(schema, mentioned, 3))
+            stats['queries'] += nq
+            stats['query_errors'] += len(qerr)
+            if qerr and len(stats['query_error_samples']) < 5:
+                stats['query_error_samples'].append(qerr[0])
         t0 = time.time()
         try:
             schema2, ops, _pgd = R.apply(schema, text)
@@ -1381,6 +1522,25 @@ def run_history(R: Real, hid, name, stmts_or_gen, ncmds, lines, recs, stats, tea
                    alpha=alpha_canon(ids, a2), before=ids.cat(before),
                    log=[tuple(l) for l in log][:40])
         recs.append(rec)
+        # the consumer side, in the same process, nothing cleared: the compiler's storage lookup for every
+        # stored pointer, and real query compilations over the pointers this statement touched
+        consumer = []
+        if cat == exp and not errs and not dangling:
+            nl, lbad = R.compiler_lookup(schema2, cat)
+            stats['lookups'] += nl
+            consumer += [('lprop-named-endpoint' if x.startswith('USER-LPROP-NAMED-ENDPOINT') else '', x)
+                         for x in lbad]
+            touched = {pid for pid, d in a2['ptrs'].items() if a['ptrs'].get(pid) != d}
+            touched |= {lp for pid, d in a2['ptrs'].items() for lp, l in d['lprops'].items()
+                        if a['ptrs'].get(pid, {}).get('lprops', {}).get(lp) != l}
+            if template != 'teardown':
+                nq, qbad, qerr = R.compile_queries(schema2, cat, R.queries_for(schema2, touched | mentioned, 4))
+                stats['queries'] += nq
+                stats['query_errors'] += len(qerr)
+                consumer += qbad
+                if qerr and len(stats['query_error_samples']) < 5:
+                    stats['query_error_samples'].append(qerr[0])
+        rec['consumer'] = consumer[:12]
         schema, a = schema2, a2
         if cat != exp or errs or dangling:
             # the real code left the catalog off: resynchronise both sides so that the rest
@@ -1423,7 +1583,8 @@ def run(ctx: core.Ctx):
     # ---------------------------------------------------------------- histories (real side)
     lines: list[str] = []
     recs: list[dict] = []
-    stats = dict(rejected={}, internal={}, internal_samples=[], templates={}, ops={}, t_real=0.0)
+    stats = dict(rejected={}, internal={}, internal_samples=[], templates={}, ops={}, t_real=0.0,
+                 lookups=0, queries=0, query_errors=0, query_error_samples=[])
     hid = 0
     if ctx.replay:
         rp = json.load(open(ctx.replay))
@@ -1433,7 +1594,7 @@ def run(ctx: core.Ctx):
                 run_history(R, hid, 'replay', list(d['history']), 0, lines, recs, stats, teardown=False)
                 hid += 1
     else:
-        for name, stmts in FIXED + special_histories():
+        for name, stmts in FIXED + corpus_histories() + special_histories():
             run_history(R, hid, name, list(stmts), 0, lines, recs, stats, teardown=not name.startswith('FINDING'))
             hid += 1
         nh = ctx.budget(40, 1000)
@@ -1445,7 +1606,7 @@ def run(ctx: core.Ctx):
             run_history(R, hid, f'random{k}' + ('r' if risky else ''), g, ncmds, lines, recs, stats,
                         teardown=(k % 2 == 0))
             hid += 1
-            if ctx.quick() and time.time() - ctx.t0 > 120 and k + 1 >= 10:
+            if ctx.quick() and time.time() - ctx.t0 > 120 and k + 1 >= 12:
                 ctx.log(f'time budget: stopping after {k + 1} random histories')
                 break
         nm = 0
@@ -1470,7 +1631,7 @@ def run(ctx: core.Ctx):
     l1_distinct, l1_bad = level1_check(ctx, l1_lines, l1_out, l1_reals, l1_descr, stub_rows)
 
     # ---------------------------------------------------------------- compare
-    n_oracle_fail = n_corr_fail = n_oom = n_walker = 0
+    n_oracle_fail = n_corr_fail = n_oom = n_walker = n_consumer = 0
     hist_corr_reported = set()
     unsafe_hist = {}
     distinct = set()
@@ -1537,6 +1698,16 @@ def run(ctx: core.Ctx):
                       'backend_errors': r['errs'], 'dangling': r['dangling'],
                       'storage_ops': r['log'], 'model_commands': r['cmds'], 'model_results': res,
                       'unsafe_steps_by_model': unsafe})
+        # ---- (iii) the consumer side: the compiler's lookup / compiled queries address existing storage
+        for tag in sorted({t for t, _ in r.get('consumer', [])}):
+            n_consumer += 1
+            msgs = [m for t, m in r['consumer'] if t == tag]
+            key = ('oracle:link-property-of-computed-link-read-from-missing-table' if tag == 'lprop-of-computed-link'
+                   else 'oracle:link-property-named-source-or-target' if tag == 'lprop-named-endpoint'
+                   else f'oracle:compiler-addresses-other-storage:{r["template"].split("+")[0]}')
+            ctx.fail(key, 'after the statement the query compiler (ptrref storage lookup / compiled SQL) addresses '
+                     'storage that differs from where the schema object is stored or that does not exist',
+                     {'history': r['history'], 'statement': r['text'], 'problems': msgs, 'storage_ops': r['log']})
         # ---- (i) the model
         if r['oom'] or '+twice' in r['template']:
             # outside the model's alphabet (the model sees the NET change of a statement; a statement that
@@ -1587,7 +1758,7 @@ def run(ctx: core.Ctx):
                 'elementary model commands, multiset of storage op kinds); non-trivial = accepted by the real code',
         'samples': samples,
         'histories': hid,
-        'fixed_histories': (len(FIXED) + len(special_histories())) if not ctx.replay else 0,
+        'fixed_histories': (len(FIXED) + len(corpus_histories()) + len(special_histories())) if not ctx.replay else 0,
         'special_names_scanned': {'exact': special_names()[0], 'prefixes': special_names()[1],
                                   'suffixes': special_names()[2],
                                   'where': {str(k): v[:4] for k, v in special_names()[3].items()}},
@@ -1605,6 +1776,9 @@ def run(ctx: core.Ctx):
         'migration_pairs': stats.get('migration_pairs', 0),
         'compound_statements': sum(v for k, v in stats['templates'].items() if k.startswith('compound')),
         'tree_walk_vs_sql_text_mismatches': n_walker,
+        'compiler_storage_lookups': stats['lookups'], 'queries_compiled_to_sql': stats['queries'],
+        'query_compile_errors': stats['query_errors'], 'query_compile_error_samples': stats['query_error_samples'],
+        'consumer_side_failures': n_consumer,
         'level1_pointer_cases': len(l1_reals), 'level1_distinct_attribute_vectors': l1_distinct,
         'level1_disagreements': l1_bad,
         'exhaustive': False,
